@@ -77,7 +77,9 @@ int len;
 	 switch(s[k])
 	  {
 	   case 'Z': case 'D': case 'K':
-             substdio_puts(ss,s + k + 1);
+	     /* the message report may lack its terminating \0 */
+	     for (j = k + 1;j < len;++j) if (!s[j]) break;
+             substdio_put(ss,s + k + 1,j - k - 1);
 	  }
      break;
     }
